@@ -236,7 +236,7 @@ func init() {
 						c.Rep.Extra["unreproduced_failures"]++
 						continue
 					}
-					if hasK(q) && strings.Contains(sym, "range-") && kOperandHasTie(cs, storeFor(cs)) {
+					if hasK(q) && (strings.Contains(sym, "range-") || strings.HasPrefix(sym, "subwindow")) && kOperandHasTie(cs, storeFor(cs)) {
 						// which of several equal values topk keeps is not a function of the inputs
 						c.Rep.Extra["tie_rule_nested_accepted"]++
 						c.Rep.Outcomes["agree-modulo-tie"]++
